@@ -55,7 +55,7 @@ func init() {
 				}
 				if r.Chance(0.004) {
 					// very long passwords with a requirement (counts with exponents beyond 2^15)
-					cc = CharCfg{Length: pick(r, []int{32767, 32768, 40000, 65536, 70000}), Allow: 7, RequireSets: []string{pick(r, []string{"#", "ab", "7"})}}
+					cc = CharCfg{Length: pick(r, []int{32767, 32768, 33000, 40000}), Allow: 7, RequireSets: []string{pick(r, []string{"#", "ab", "7"})}}
 				}
 				if r.Chance(0.1) {
 					cc.Length = pick(r, []int{0, -1, -7})
